@@ -47,7 +47,13 @@ func (t *Timer) Set(dur time.Duration, cb func()) error {
 	if err == nil {
 		// TODO error checking here
 		t.slot.Set(ReadEvent, func(error) {
-			_, _ = syscall.Read(t.fd, t.b[:])
+			if _, err := syscall.Read(t.fd, t.b[:]); err == syscall.EAGAIN {
+				// The timer has not expired: this readiness event is stale. It was produced by an earlier arming of
+				// this timerfd which has since been cancelled and re-armed by a handler that ran earlier in the same
+				// poll cycle. Keep waiting for the real expiration instead of firing the new callback early.
+				_ = t.poller.SetRead(&t.slot)
+				return
+			}
 			cb()
 		})
 		err = t.poller.SetRead(&t.slot)
